@@ -21,6 +21,7 @@ import (
 	"sort"
 	"strings"
 	"testing"
+	"time"
 
 	"github.com/go-kit/log"
 	v1 "k8s.io/api/core/v1"
@@ -38,6 +39,7 @@ import (
 type vbSess struct {
 	name   string
 	addr   string
+	params bgp.SessionParameters
 	ads    []*bgp.Advertisement
 	closed bool
 	sets   int
@@ -56,7 +58,7 @@ func (s *vbSess) Set(ads ...*bgp.Advertisement) error {
 type vbSM struct{ sessions []*vbSess }
 
 func (m *vbSM) NewSession(_ log.Logger, a bgp.SessionParameters) (bgp.Session, error) {
-	s := &vbSess{name: a.SessionName, addr: a.PeerAddress}
+	s := &vbSess{name: a.SessionName, addr: a.PeerAddress, params: a}
 	m.sessions = append(m.sessions, s)
 	return s, nil
 }
@@ -1319,6 +1321,392 @@ func vbRunHistory(out *vOut, id int, kind string, h []vbEv) {
 	out.Case(id, kind, cCtor("mk_bcase", cNi(id), cNi(0), cListN([]int{0, 1, 2, 9}), cList(steps)), h)
 }
 
+
+
+// ---------------------------------------------------------------- session parameters follow the configuration
+// TestVerifBgpSessParams (C05 / C15): successive SetConfig calls on the real bgpController that
+// change exactly one field of one peer at a time (every field of config.Peer), for the four ways
+// a password reaches a session (native, frr, frr-k8s with secret pass-through, frr-k8s converting
+// the secret).  After each SetConfig: every peer selected for this node has exactly one live session
+// and the arguments that session was created with equal the CURRENT peer configuration; a peer
+// not selected has none.
+
+type vbPCfg struct {
+	Name      string   `json:"name"`
+	MyASN     uint32   `json:"my_asn"`
+	ASN       uint32   `json:"asn"`
+	DynASN    string   `json:"dyn_asn"`
+	Addr      string   `json:"addr"`
+	Iface     string   `json:"iface"`
+	Src       string   `json:"src"`
+	Port      uint16   `json:"port"`
+	Hold      int      `json:"hold"` // seconds, 0 = nil
+	Keep      int      `json:"keep"`
+	Connect   int      `json:"connect"`
+	RouterID  string   `json:"router_id"`
+	Sels      []string `json:"sels"`
+	Password  string   `json:"password"`
+	SecretPw  string   `json:"secret_password"`
+	RefName   string   `json:"ref_name"`
+	RefNS     string   `json:"ref_ns"`
+	BFD       string   `json:"bfd"`
+	GR        bool     `json:"graceful_restart"`
+	MultiHop  bool     `json:"multihop"`
+	VRF       string   `json:"vrf"`
+	DisableMP bool     `json:"disable_mp"`
+}
+
+func vbDur(sec int) *time.Duration {
+	if sec == 0 {
+		return nil
+	}
+	d := time.Duration(sec) * time.Second
+	return &d
+}
+
+func vbBuildPCfg(p vbPCfg) *config.Peer {
+	c := &config.Peer{Name: p.Name, MyASN: p.MyASN, ASN: p.ASN, DynamicASN: p.DynASN, Iface: p.Iface, Port: p.Port,
+		HoldTime: vbDur(p.Hold), KeepaliveTime: vbDur(p.Keep), ConnectTime: vbDur(p.Connect),
+		Password: p.Password, SecretPassword: p.SecretPw, BFDProfile: p.BFD, EnableGracefulRestart: p.GR,
+		EBGPMultiHop: p.MultiHop, VRF: p.VRF, DisableMP: p.DisableMP}
+	c.PasswordRef.Name, c.PasswordRef.Namespace = p.RefName, p.RefNS
+	if p.Addr != "" {
+		c.Addr = net.ParseIP(p.Addr)
+	}
+	if p.Src != "" {
+		c.SrcAddr = net.ParseIP(p.Src)
+	}
+	if p.RouterID != "" {
+		c.RouterID = net.ParseIP(p.RouterID)
+	}
+	for _, sel := range p.Sels {
+		ps, err := labels.Parse(sel)
+		if err != nil {
+			panic(err)
+		}
+		c.NodeSelectors = append(c.NodeSelectors, ps)
+	}
+	return c
+}
+
+// one-field changes; each returns the name of the field it changed
+var vbPMutations = []func(p *vbPCfg, r *rand.Rand) string{
+	func(p *vbPCfg, r *rand.Rand) string { p.MyASN += 1; return "MyASN" },
+	func(p *vbPCfg, r *rand.Rand) string { p.ASN += 1; return "ASN" },
+	func(p *vbPCfg, r *rand.Rand) string {
+		if p.DynASN == "" {
+			p.DynASN = "external"
+		} else if p.DynASN == "external" {
+			p.DynASN = "internal"
+		} else {
+			p.DynASN = ""
+		}
+		return "DynamicASN"
+	},
+	func(p *vbPCfg, r *rand.Rand) string {
+		if p.Addr == "" {
+			p.Addr, p.Iface = "10.9.1.9", ""
+			return "Addr/Iface"
+		}
+		p.Addr = fmt.Sprintf("10.9.%d.%d", 1+r.Intn(3), 1+r.Intn(200))
+		return "Addr"
+	},
+	func(p *vbPCfg, r *rand.Rand) string {
+		if p.Iface == "" {
+			p.Iface, p.Addr = "eth1", ""
+		} else {
+			p.Iface = p.Iface + "x"
+		}
+		return "Iface"
+	},
+	func(p *vbPCfg, r *rand.Rand) string {
+		if p.Src == "" {
+			p.Src = "10.8.0.1"
+		} else if p.Src == "10.8.0.1" {
+			p.Src = "10.8.0.2"
+		} else {
+			p.Src = ""
+		}
+		return "SrcAddr"
+	},
+	func(p *vbPCfg, r *rand.Rand) string { p.Port = 179 + uint16(r.Intn(3)) + (p.Port%2)*7; return "Port" },
+	func(p *vbPCfg, r *rand.Rand) string { p.Hold = (p.Hold + 30) % 120; return "HoldTime" },
+	func(p *vbPCfg, r *rand.Rand) string { p.Keep = (p.Keep + 10) % 40; return "KeepaliveTime" },
+	func(p *vbPCfg, r *rand.Rand) string { p.Connect = (p.Connect + 5) % 20; return "ConnectTime" },
+	func(p *vbPCfg, r *rand.Rand) string {
+		if p.RouterID == "" {
+			p.RouterID = "10.0.0.1"
+		} else if p.RouterID == "10.0.0.1" {
+			p.RouterID = "10.0.0.2"
+		} else {
+			p.RouterID = ""
+		}
+		return "RouterID"
+	},
+	func(p *vbPCfg, r *rand.Rand) string {
+		p.Sels = [][]string{{}, {"k0=v0"}, {"k0=v1"}, {"k1=v0", "k0=v0"}, {"k0 in (v0,v1)"}}[r.Intn(5)]
+		return "NodeSelectors"
+	},
+	func(p *vbPCfg, r *rand.Rand) string { // plain password (exclusive with the secret)
+		p.SecretPw, p.RefName, p.RefNS = "", "", ""
+		p.Password = []string{"", "pw-a", "pw-b"}[r.Intn(3)]
+		return "Password"
+	},
+	func(p *vbPCfg, r *rand.Rand) string { // the secret's CONTENT changes
+		p.Password = ""
+		if p.RefName == "" {
+			p.RefName, p.RefNS = "bgp-secret", "metallb-system"
+		}
+		if p.SecretPw == "s3cret" {
+			p.SecretPw = "other"
+		} else {
+			p.SecretPw = "s3cret"
+		}
+		return "SecretPassword"
+	},
+	func(p *vbPCfg, r *rand.Rand) string { // only the secret's NAME changes (same content)
+		p.Password = ""
+		if p.SecretPw == "" {
+			p.SecretPw = "s3cret"
+		}
+		if p.RefNS == "" {
+			p.RefNS = "metallb-system"
+		}
+		if p.RefName == "bgp-secret" {
+			p.RefName = "bgp-secret-renamed"
+		} else {
+			p.RefName = "bgp-secret"
+		}
+		return "PasswordRef.Name"
+	},
+	func(p *vbPCfg, r *rand.Rand) string { // only the secret's NAMESPACE changes (same content)
+		p.Password = ""
+		if p.SecretPw == "" {
+			p.SecretPw = "s3cret"
+		}
+		if p.RefName == "" {
+			p.RefName = "bgp-secret"
+		}
+		if p.RefNS == "metallb-system" {
+			p.RefNS = "other-ns"
+		} else {
+			p.RefNS = "metallb-system"
+		}
+		return "PasswordRef.Namespace"
+	},
+	func(p *vbPCfg, r *rand.Rand) string {
+		if p.BFD == "" {
+			p.BFD = "bfd-a"
+		} else if p.BFD == "bfd-a" {
+			p.BFD = "bfd-b"
+		} else {
+			p.BFD = ""
+		}
+		return "BFDProfile"
+	},
+	func(p *vbPCfg, r *rand.Rand) string { p.GR = !p.GR; return "EnableGracefulRestart" },
+	func(p *vbPCfg, r *rand.Rand) string { p.MultiHop = !p.MultiHop; return "EBGPMultiHop" },
+	func(p *vbPCfg, r *rand.Rand) string {
+		if p.VRF == "" {
+			p.VRF = "red"
+		} else if p.VRF == "red" {
+			p.VRF = "blue"
+		} else {
+			p.VRF = ""
+		}
+		return "VRF"
+	},
+	func(p *vbPCfg, r *rand.Rand) string { p.DisableMP = !p.DisableMP; return "DisableMP" },
+}
+
+type vbPMode struct {
+	Name      string
+	Type      bgpImplementation
+	Namespace string // != FRRK8sNamespace ("frr-k8s-system") => the secret is converted
+}
+
+var vbPModes = []vbPMode{
+	{"native", bgpNative, "metallb-system"},
+	{"frr", bgpFrr, "metallb-system"},
+	{"frr-k8s-pass-through", bgpFrrK8s, "frr-k8s-system"},
+	{"frr-k8s-convert", bgpFrrK8s, "metallb-system"},
+}
+
+// the session arguments the statements prescribe for a peer configuration
+func vbWantParams(p vbPCfg, m vbPMode) bgp.SessionParameters {
+	c := vbBuildPCfg(p)
+	w := bgp.SessionParameters{PeerPort: c.Port, PeerInterface: c.Iface, SourceAddress: c.SrcAddr, MyASN: c.MyASN, RouterID: c.RouterID,
+		PeerASN: c.ASN, DynamicASN: c.DynamicASN, HoldTime: c.HoldTime, KeepAliveTime: c.KeepaliveTime, ConnectTime: c.ConnectTime,
+		CurrentNode: vbNodeNames[0], BFDProfile: c.BFDProfile, GracefulRestart: c.EnableGracefulRestart, EBGPMultiHop: c.EBGPMultiHop,
+		SessionName: c.Name, VRFName: c.VRF, DisableMP: c.DisableMP}
+	if c.Addr != nil {
+		w.PeerAddress = c.Addr.String()
+	}
+	// either the password or the secret reference, never both: only frr-k8s with pass-through hands the
+	// reference on; every other mode gets the clear-text password (the peer's own or the secret's)
+	if m.Name == "frr-k8s-pass-through" {
+		w.Password = p.Password
+		w.PasswordRef.Name, w.PasswordRef.Namespace = p.RefName, p.RefNS
+	} else {
+		w.Password = p.Password
+		if p.SecretPw != "" {
+			w.Password = p.SecretPw
+		}
+	}
+	return w
+}
+
+func vbParamsJSON(a bgp.SessionParameters) string {
+	d := func(x *time.Duration) string {
+		if x == nil {
+			return "nil"
+		}
+		return x.String()
+	}
+	b, _ := json.Marshal(map[string]any{"addr": a.PeerAddress, "port": a.PeerPort, "iface": a.PeerInterface, "src": a.SourceAddress.String(),
+		"my_asn": a.MyASN, "router_id": a.RouterID.String(), "asn": a.PeerASN, "dyn_asn": a.DynamicASN, "hold": d(a.HoldTime), "keep": d(a.KeepAliveTime),
+		"connect": d(a.ConnectTime), "password": a.Password, "ref": a.PasswordRef.Namespace + "/" + a.PasswordRef.Name, "node": a.CurrentNode,
+		"bfd": a.BFDProfile, "gr": a.GracefulRestart, "multihop": a.EBGPMultiHop, "vrf": a.VRFName, "name": a.SessionName, "disable_mp": a.DisableMP})
+	return string(b)
+}
+
+func vbSelectedFor(p vbPCfg, nodeLabels map[string]string) bool {
+	if len(p.Sels) == 0 {
+		return true
+	}
+	for _, s := range p.Sels {
+		sel, _ := labels.Parse(s)
+		if sel.Matches(labels.Set(nodeLabels)) {
+			return true
+		}
+	}
+	return false
+}
+
+func vbRunSessParams(out *vOut, m vbPMode, steps int, r *rand.Rand, script []int) {
+	sm := &vbSM{}
+	old := newBGP
+	newBGP = func(controllerConfig) bgp.SessionManager { return sm }
+	ctl, err := newController(controllerConfig{MyNode: vbNodeNames[0], Namespace: m.Namespace, FRRK8sNamespace: "frr-k8s-system",
+		DisableLayer2: true, bgpType: m.Type, Logger: log.NewNopLogger(), BGPAdsChangedCallback: func(string) {}})
+	newBGP = old
+	if err != nil {
+		panic(err)
+	}
+	c := ctl.protocolHandlers[config.BGP].(*bgpController)
+	lg := log.NewNopLogger()
+	nodeLabels := map[string]string{"k0": "v0"}
+	c.SetNode(lg, &v1.Node{ObjectMeta: metav1.ObjectMeta{Name: vbNodeNames[0], Labels: nodeLabels}})
+	peers := []vbPCfg{
+		{Name: "peer0", MyASN: 64512, ASN: 64513, Addr: "10.9.0.1", Port: 179},
+		{Name: "peer1", MyASN: 64512, ASN: 64512, Addr: "10.9.0.2", Port: 179, SecretPw: "s3cret", RefName: "bgp-secret", RefNS: "metallb-system", Sels: []string{"k0=v0"}},
+		{Name: "peer2", MyASN: 64512, ASN: 64514, Iface: "eth0", Port: 179, Password: "pw-a", Hold: 90, Keep: 30},
+	}
+	var log_ []map[string]any
+	failed := false
+	for step := 0; step <= steps; step++ {
+		what := "initial"
+		if step > 0 {
+			pi := r.Intn(len(peers))
+			mi := r.Intn(len(vbPMutations))
+			if step-1 < len(script) {
+				pi, mi = 1, script[step-1]
+			}
+			switch x := r.Intn(20); {
+			case x == 0 && step-1 >= len(script):
+				what = "nothing changes"
+			case x == 1 && step-1 >= len(script) && len(peers) > 1:
+				what = "peer " + peers[pi].Name + " removed"
+				peers = append(append([]vbPCfg{}, peers[:pi]...), peers[pi+1:]...)
+			default:
+				q := peers[pi]
+				q.Sels = append([]string{}, q.Sels...)
+				what = "peer " + q.Name + ": " + vbPMutations[mi](&q, r)
+				peers = append(append(append([]vbPCfg{}, peers[:pi]...), q), peers[pi+1:]...)
+				out.Stat("sessparams_field:"+strings.SplitN(what, ": ", 2)[1], 1)
+			}
+		}
+		cfg := &config.Config{Peers: map[string]*config.Peer{}}
+		for _, p := range peers {
+			cfg.Peers[p.Name] = vbBuildPCfg(p) // fresh objects on every call
+		}
+		if err := c.SetConfig(lg, cfg); err != nil {
+			panic(err)
+		}
+		log_ = append(log_, map[string]any{"step": step, "change": what, "peers": append([]vbPCfg{}, peers...)})
+		out.Stat("sessparams_setconfig", 1)
+		// ---- oracle
+		liveBy := map[string][]*vbSess{}
+		for _, s := range sm.sessions {
+			if !s.closed {
+				liveBy[s.name] = append(liveBy[s.name], s)
+			}
+		}
+		fail := func(sig, msg string) {
+			if !failed {
+				failed = true
+				out.Fail(sig, fmt.Sprintf("%s, step %d (%s): %s", m.Name, step, what, msg), map[string]any{"mode": m.Name, "sessparams_history": log_})
+			}
+		}
+		names := map[string]bool{}
+		for _, p := range peers {
+			names[p.Name] = true
+			sel := vbSelectedFor(p, nodeLabels)
+			ls := liveBy[p.Name]
+			if !sel {
+				if len(ls) != 0 {
+					fail("bgp-session-liveness", fmt.Sprintf("peer %s is not selected for this node but has %d live sessions", p.Name, len(ls)))
+				}
+				continue
+			}
+			if len(ls) != 1 {
+				fail("bgp-session-liveness", fmt.Sprintf("peer %s is selected for this node and has %d live sessions", p.Name, len(ls)))
+				continue
+			}
+			got, want := vbParamsJSON(ls[0].params), vbParamsJSON(vbWantParams(p, m))
+			out.Stat("sessparams_checks", 1)
+			if got != want {
+				var gm, wm map[string]any
+				json.Unmarshal([]byte(got), &gm)
+				json.Unmarshal([]byte(want), &wm)
+				var diff []string
+				for k := range wm {
+					if fmt.Sprint(gm[k]) != fmt.Sprint(wm[k]) {
+						diff = append(diff, fmt.Sprintf("%s: session %v, configuration %v", k, gm[k], wm[k]))
+					}
+				}
+				sort.Strings(diff)
+				fail("bgp-session-params-stale-after-setconfig",
+					fmt.Sprintf("the live session of peer %s was not created from the current peer configuration (%s)", p.Name, strings.Join(diff, "; ")))
+			}
+		}
+		for nm, ls := range liveBy {
+			if !names[nm] && len(ls) > 0 {
+				fail("bgp-session-for-unconfigured-peer", fmt.Sprintf("live session for peer %s which is not configured", nm))
+			}
+		}
+	}
+}
+
+func TestVerifBgpSessParams(t *testing.T) {
+	out := vOpen()
+	defer out.Close()
+	r := vRand()
+	n := vN(6)
+	for _, m := range vbPModes {
+		// every one-field change once, on the peer authenticated through a secret
+		all := make([]int, len(vbPMutations))
+		for i := range all {
+			all[i] = i
+		}
+		vbRunSessParams(out, m, len(all), r, all)
+		// only the secret reference moves, back and forth, content identical
+		vbRunSessParams(out, m, 4, r, []int{14, 15, 14, 15})
+		for k := 0; k < n; k++ {
+			vbRunSessParams(out, m, 25, r, nil)
+		}
+	}
+}
 
 // ---------------------------------------------------------------- C05 through the whole controller
 // speaker/main.go decides which pool's advertisements a Service's routes are built from (poolFor):
